@@ -7,7 +7,7 @@ import CrabModel.Num.SafeInt
   Handlers for components `num` (`ikos::z_number`, `ikos::q_number`) and `safe`
   (`crab::safe_i64`).  Lines:
       (num.<op> z ...)          => decimal | 0/1 | err
-      (num.q_<op> (q n d) ...)  => (q n d) | decimal | lt/eq/gt | err
+      (num.q_<op> (q n d) ...)  => (q n d) | decimal | lt/eq/gt | err   operands through q_number(n, d)
       (safe.<op> a b)           => decimal | 0/1 | err
   Every line is recomputed with the model (`CrabModel/Num/*`), and — independently of the model —
   the property C20 itself is evaluated on the implementation's answer (mathematical meaning of
@@ -155,153 +155,154 @@ def handleZBin (op : String) (a b : Int) (r : Option Int) : Verdict :=
       | _, _ => none
     settle ctx (m == r) prop (showOptInt m) (showOptInt r)
 
+/-- `q_number` lines.  Every operand `(q n d)` is built by the harness with
+    `q_number(z_number n, z_number d)`: CRAB_ERROR on `d = 0`, canonical form otherwise
+    (`QNum.mk?`); the property predicates are evaluated on the operands *as written* (any sign of
+    the denominator, common factors) through cross products. -/
 def handleNumQ (op : String) (args res : List Sexp) : Verdict :=
+  let canonical (q : QNum) : Bool := decide (0 < q.den) && Nat.gcd q.num.natAbs q.den.natAbs == 1
+  /- `q` denotes `n' / d'` (`d' ≠ 0`, any sign) -/
+  let denotes (q : QNum) (n' d' : Int) : Bool := q.num * d' == n' * q.den
+  let showImplQ (ri : Option QNum) : String := match ri with | some q => showQ q | none => "err"
   let outQ (ctx : String) (m : Outcome QNum) (r : Sexp) (prop : Option QNum → Option String) : Verdict :=
     let impl : Option (Option QNum) := match r with
       | .atom "err" => some none
       | s => (parseQ s).map some
     match impl with
-    | none =>
-      match r, m with
-      | .atom "trap", _ => .skip "q: operand outside the domain of GMP (not executed)"
-      | _, _ => .bad s!"num.{op} result"
+    | none => .bad s!"num.{op} result"
     | some ri =>
       match m with
-      | .trap => .skip "q: operand outside the modelled domain (GMP abort)"
+      | .trap =>
+        -- outside what GMP accepts: cannot happen on values built by the constructors
+        .drift (ctx ++ s!" model=trap impl={showImplQ ri}")
       | _ =>
         let agree := m.toOption == ri && (m == .err) == ri.isNone
-        settle ctx agree (prop ri) (showOutQ m) (match ri with | some q => showQ q | none => "err")
-  let canonical (q : QNum) : Bool := decide (0 < q.den) && Nat.gcd q.num.natAbs q.den.natAbs == 1
-  match op, args, res with
-  | "q_ofz", [z], [r] =>
-    match z.int? with
-    | some z => outQ s!"num.q_ofz {z}" (.ok (QNum.ofZ z)) r
-        (fun ri => match ri with
-          | some q => if q.num == z && q.den == 1 then none else some "not z/1"
-          | none => some "unexpected CRAB_ERROR")
-    | none => .bad "num.q_ofz"
-  | "q_mk", [a], [r] =>
-    match parseQ a with
-    | some a => outQ s!"num.q_mk {showQ a}" (.ok (QNum.mk' a.num a.den)) r (fun _ => none)
-    | none => .bad "num.q_mk"
-  | "q_str", [a], [r] =>
-    match parseQ a, r.atom? with
-    | some a, some s =>
-      if a.den ≤ 0 then .skip "q_str: non-positive denominator"
-      else if QNum.toStr a == s then .ok else .drift s!"num.q_str {showQ a} model={QNum.toStr a} impl={s}"
-    | _, _ => .bad "num.q_str"
-  | "q_rlo", [a], [r] =>
-    match parseQ a, parseIntOrErr r with
-    | some a, some ri =>
-      let m := QNum.roundToLower a
-      let prop : Option String :=
-        if a.den == 0 then (if ri.isNone then none else some "zero denominator must raise CRAB_ERROR")
-        else match ri with
+        settle ctx agree (prop ri) (showOutQ m) (showImplQ ri)
+  if op == "q_ofz" then
+    match args, res with
+    | [z], [r] =>
+      match z.int? with
+      | some z => outQ s!"num.q_ofz {z}" (.ok (QNum.ofZ z)) r
+          (fun ri => match ri with
+            | some q => if q.num == z && q.den == 1 then none else some "not z/1"
+            | none => some "unexpected CRAB_ERROR")
+      | none => .bad "num.q_ofz"
+    | _, _ => .bad "num.q_ofz arity"
+  else
+  match args.mapM parseQ, res with
+  | none, _ => .bad s!"num.{op} operands"
+  | some raws, [r] =>
+    let ctx := s!"num.{op}" ++ String.join (raws.map (fun q => " " ++ showQ q))
+    if raws.any (fun q => q.den == 0) then
+      -- the constructor must refuse the operand
+      match r with
+      | .atom "err" => .ok
+      | _ => .unsound (ctx ++ s!" impl={r} zero denominator in q_number(num, den) must raise CRAB_ERROR")
+    else
+    match raws.mapM (fun q => QNum.mk? q.num q.den) with
+    | none => .bad s!"num.{op}: constructor model"
+    | some stored =>
+    match op, raws, stored with
+    | "q_mk", [a], [sa] =>
+      outQ ctx (.ok sa) r (fun ri => match ri with
+        | none => some "unexpected CRAB_ERROR"
+        | some q => if canonical q && denotes q a.num a.den then none
+                    else some "constructor: wrong value or not canonical")
+    | "q_str", [_], [sa] =>
+      match r.atom? with
+      | some s => if QNum.toStr sa == s then .ok else .drift (ctx ++ s!" model={QNum.toStr sa} impl={s}")
+      | none => .bad "num.q_str result"
+    | "q_rlo", [a], [sa] =>
+      match parseIntOrErr r with
+      | some ri =>
+        let m := QNum.roundToLower sa
+        let prop : Option String := match ri with
           | none => some "unexpected CRAB_ERROR"
           | some v =>
             -- floor: v <= num/den < v+1, written with the sign of the denominator
             let ok := if a.den > 0 then decide (v * a.den ≤ a.num ∧ a.num < (v + 1) * a.den)
                       else decide (v * a.den ≥ a.num ∧ a.num > (v + 1) * a.den)
             if ok then none
-            else if a.den < 0 then some "negative-denominator: not the floor of num/den (q_number(num, den) keeps a non-canonical pair)"
+            else if a.den < 0 then some "negative-denominator: not the floor of num/den"
             else some "not the floor of num/den"
-      settle s!"num.q_rlo {showQ a}" (m == ri) prop (showOptInt m) (showOptInt ri)
-    | _, _ => .bad "num.q_rlo"
-  | "q_rup", [a], [r] =>
-    match parseQ a, parseIntOrErr r with
-    | some a, some ri =>
-      let m := QNum.roundToUpper a
-      let prop : Option String :=
-        if a.den == 0 then (if ri.isNone then none else some "zero denominator must raise CRAB_ERROR")
-        else match ri with
+        settle ctx (m == ri) prop (showOptInt m) (showOptInt ri)
+      | none => .bad "num.q_rlo result"
+    | "q_rup", [a], [sa] =>
+      match parseIntOrErr r with
+      | some ri =>
+        let m := QNum.roundToUpper sa
+        let prop : Option String := match ri with
           | none => some "unexpected CRAB_ERROR"
           | some v =>
             let ok := if a.den > 0 then decide ((v - 1) * a.den < a.num ∧ a.num ≤ v * a.den)
                       else decide ((v - 1) * a.den > a.num ∧ a.num ≥ v * a.den)
             if ok then none
-            else if a.den < 0 then some "negative-denominator: not the ceiling of num/den (q_number(num, den) keeps a non-canonical pair)"
+            else if a.den < 0 then some "negative-denominator: not the ceiling of num/den"
             else some "not the ceiling of num/den"
-      settle s!"num.q_rup {showQ a}" (m == ri) prop (showOptInt m) (showOptInt ri)
-    | _, _ => .bad "num.q_rup"
-  | "q_cmp", [a, b], [r] =>
-    match parseQ a, parseQ b, r.atom? with
-    | some a, some b, some s =>
-      if a.den ≤ 0 || b.den ≤ 0 then .skip "q_cmp: non-positive denominator"
-      else
-        let m := match QNum.cmp a b with | .lt => "lt" | .eq => "eq" | .gt => "gt"
-        -- the order of the rationals through the sign of the difference of cross products
-        let d := a.num * b.den - b.num * a.den
+        settle ctx (m == ri) prop (showOptInt m) (showOptInt ri)
+      | none => .bad "num.q_rup result"
+    | "q_cmp", [a, b], [sa, sb] =>
+      match r.atom? with
+      | some s =>
+        let m := match QNum.cmp sa sb with | .lt => "lt" | .eq => "eq" | .gt => "gt"
+        -- the order of the rationals: sign of the difference of cross products, corrected by the
+        -- signs of the denominators as written
+        let d := (a.num * b.den - b.num * a.den) * a.den.sign * b.den.sign
         let math := if d < 0 then "lt" else if d == 0 then "eq" else "gt"
-        settle s!"num.q_cmp {showQ a} {showQ b}" (m == s)
+        settle ctx (m == s)
           (if math == s then none else some "comparison differs from the order of the rationals") m s
-    | _, _, _ => .bad "num.q_cmp"
-  | "q_shl", [a, k], [r] =>
-    match parseQ a, parseQ k with
-    | some a, some k =>
-      outQ s!"num.q_shl {showQ a} {showQ k}" (QNum.shl a k) r
+      | none => .bad "num.q_cmp result"
+    | "q_shl", [a, k], [sa, sk] =>
+      outQ ctx (QNum.shl sa sk) r
         (fun ri =>
-          if k.den == 0 then (if ri.isNone then none else some "zero denominator in the amount must raise CRAB_ERROR")
-          else if k.num % k.den != 0 then (if ri.isNone then none else some "non-integral amount must raise CRAB_ERROR")
+          if k.num % k.den != 0 then (if ri.isNone then none else some "non-integral amount must raise CRAB_ERROR")
           else match ri with
             | none => some "unexpected CRAB_ERROR"
             | some q =>
               let s := k.num / k.den
-              if s < 0 || s > 100000 || a.den == 0 then none
-              else if q.den != 0 && q.num * a.den == a.num * 2 ^ s.toNat * q.den
-                      && (!canonical a || canonical q) then none
-              else some "not a * 2^k (or not canonical on a canonical operand)")
-    | _, _ => .bad "num.q_shl"
-  | _, [a], [r] =>
-    match parseQ a with
-    | some a =>
+              if s < 0 || s > 100000 then none
+              else if canonical q && denotes q (a.num * 2 ^ s.toNat) a.den then none
+              else some "not a * 2^k or not canonical")
+    | _, [a], [sa] =>
       let m : Option (Outcome QNum) := match op with
-        | "q_neg" => some (QNum.neg a) | "q_incr" => some (QNum.incr a) | "q_decr" => some (QNum.decr a)
+        | "q_neg" => some (QNum.neg sa) | "q_incr" => some (QNum.incr sa) | "q_decr" => some (QNum.decr sa)
         | _ => none
       match m with
       | none => .bad s!"num.{op}"
       | some m =>
-        outQ s!"num.{op} {showQ a}" m r (fun ri => match ri with
+        outQ ctx m r (fun ri => match ri with
           | none => some "unexpected CRAB_ERROR"
           | some q =>
-            if a.den == 0 then none
-            else
-              -- expected value as a cross product identity: q = (n' / a.den)
-              let n' : Int := match op with
-                | "q_neg" => -a.num | "q_incr" => a.num + a.den | _ => a.num - a.den
-              if canonical q && q.num * a.den == n' * q.den then none
-              else some "wrong value or not canonical")
-    | none => .bad s!"num.{op}"
-  | _, [a, b], [r] =>
-    match parseQ a, parseQ b with
-    | some a, some b =>
+            let n' : Int := match op with
+              | "q_neg" => -a.num | "q_incr" => a.num + a.den | _ => a.num - a.den
+            if canonical q && denotes q n' a.den then none else some "wrong value or not canonical")
+    | _, [a, b], [sa, sb] =>
       let base := match op with
         | "q_adda" => "q_add" | "q_suba" => "q_sub" | "q_mula" => "q_mul" | "q_diva" => "q_div" | o => o
       let m : Option (Outcome QNum) := match op with
-        | "q_add" => some (QNum.add a b) | "q_sub" => some (QNum.sub a b)
-        | "q_mul" => some (QNum.mul a b) | "q_div" => some (QNum.div a b)
-        | "q_adda" => some (QNum.addAssign a b) | "q_suba" => some (QNum.subAssign a b)
-        | "q_mula" => some (QNum.mulAssign a b) | "q_diva" => some (QNum.divAssign a b)
+        | "q_add" => some (QNum.add sa sb) | "q_sub" => some (QNum.sub sa sb)
+        | "q_mul" => some (QNum.mul sa sb) | "q_div" => some (QNum.div sa sb)
+        | "q_adda" => some (QNum.addAssign sa sb) | "q_suba" => some (QNum.subAssign sa sb)
+        | "q_mula" => some (QNum.mulAssign sa sb) | "q_diva" => some (QNum.divAssign sa sb)
         | _ => none
       match m with
       | none => .bad s!"num.{op}"
       | some m =>
-        outQ s!"num.{op} {showQ a} {showQ b}" m r (fun ri =>
-          if a.den == 0 || b.den == 0 then none
-          else
-            -- expected value N / D by the school formulas
-            let (n', d') : Int × Int := match base with
-              | "q_add" => (a.num * b.den + b.num * a.den, a.den * b.den)
-              | "q_sub" => (a.num * b.den - b.num * a.den, a.den * b.den)
-              | "q_mul" => (a.num * b.num, a.den * b.den)
-              | _ => (a.num * b.den, a.den * b.num)
-            match ri with
-            | none => if base == "q_div" && b.num == 0 then none else some "unexpected CRAB_ERROR"
-            | some q =>
-              if base == "q_div" && b.num == 0 then some "division by zero must raise CRAB_ERROR"
-              else if canonical q && q.num * d' == n' * q.den then none
-              else some "wrong value or not canonical")
-    | _, _ => .bad s!"num.{op}"
-  | _, _, _ => .bad s!"num.{op}: arity"
+        outQ ctx m r (fun ri =>
+          -- expected value N / D by the school formulas on the operands as written
+          let (n', d') : Int × Int := match base with
+            | "q_add" => (a.num * b.den + b.num * a.den, a.den * b.den)
+            | "q_sub" => (a.num * b.den - b.num * a.den, a.den * b.den)
+            | "q_mul" => (a.num * b.num, a.den * b.den)
+            | _ => (a.num * b.den, a.den * b.num)
+          match ri with
+          | none => if base == "q_div" && b.num == 0 then none else some "unexpected CRAB_ERROR"
+          | some q =>
+            if base == "q_div" && b.num == 0 then some "division by zero must raise CRAB_ERROR"
+            else if canonical q && denotes q n' d' then none
+            else some "wrong value or not canonical")
+    | _, _, _ => .bad s!"num.{op}: arity"
+  | some _, _ => .bad s!"num.{op}: result arity"
 
 def handleZ (op : String) (args res : List Sexp) : Verdict :=
   if op.startsWith "q_" then handleNumQ op args res else
